@@ -92,6 +92,16 @@ def make_specs(ctx, purpose='c09'):
     # previous call — evolved mass scales, typed dicts — shows up here)
     for zz in (0.5, 0.8, 0.8, 0.2, 1.1, 0.5):
         add(17, 40, TRACERS, zevo=True, z=zz, AB=True, conformity=True, velbias=True, rsd=True, Nthread=rng.choice([1, 3, 16]))
+    # the tracers listed in another order than LRG, ELG, QSO (YAML / dict key order is the user's): what is filed under a
+    # tracer's name must still be that tracer's galaxies
+    import itertools as _it
+    for subset in SUBSETS:
+        if len(subset) < 2:
+            continue
+        perms = [list(p) for p in _it.permutations(subset) if list(p) != list(subset)]
+        for korder in (perms if not quick or len(perms) == 1 else rng.sample(perms, 2)):
+            add(17, 40, subset, korder=korder, AB=True, conformity=True, velbias=True, rsd=rng.random() < .5,
+                Nthread=rng.choice([1, 3, 16]))
     # degenerate sizes
     for (H, P) in sizes_small[:3]:
         for subset in (('LRG',), ('ELG', 'QSO'), TRACERS):
@@ -146,7 +156,8 @@ def _hod_params(spec, rng):
     if spec.get('zevo'):
         for t in allp.values():
             t.update(z_pivot=0.5, logM_cut_pr=0.6, logM1_pr=-0.4)
-    return {t: allp[t] for t in spec['subset']}
+    # the key order of the dict is the order in which the config lists the tracers (any order is legal)
+    return {t: allp[t] for t in (spec.get('korder') or spec['subset'])}
 
 
 def build_case(spec):
